@@ -242,6 +242,8 @@ def check_expectation(sc, o):
         later = [x for x in later if not x.startswith('#')]
         if e.get('kind') == 'gotwant' and any(l.startswith(f) for l in fp.exec_lines for f in later):
             why.append('failing part also holds later statements: %r' % (fp.exec_lines,))
+    if sc.get('groups') is not None:
+        why.extend(check_primitives(sc, o))
     if e.get('render'):
         ex = o['ex']
         try:
@@ -253,6 +255,46 @@ def check_expectation(sc, o):
                 why.append('failure report does not show the failing line %r' % e['fail_first_line'])
         except Exception as ex2:
             why.append('repr_failure() raised %s: %s' % (type(ex2).__name__, ex2))
+    return why
+
+
+def check_primitives(sc, o):
+    """the primitive results recorded for every executed part (its stdout, the value of its final
+    expression) against what the generator knows by construction: a part's stdout is what ITS
+    statements print, its value is absent or the value of ITS last statement (never one left over
+    from an earlier part)"""
+    import re as _re
+    from xdoctest import constants
+    why = []
+    ex = o['ex']
+    groups = [g for g in sc['groups'] if g.kind != 'block']
+    special = ('raise', 'printraise', 'callraise', 'emptyraise', 'exit', 'compileerr', 'badrepr', 'badreprprint')
+    for idx, part in enumerate(o['parts']):
+        if idx not in o['logged_stdout']:
+            continue
+        src = '\n'.join(part.exec_lines)
+        if idx == o.get('failidx'):
+            continue     # the failing part stopped somewhere in the middle
+        gs = [g for g in groups if g.kind != 'comment' and (
+            ('print(f%d(1))' % g.k) in src if g.kind == 'funcdef' else _re.search(r'\bt\(%d\)' % g.k, src))]
+        if not gs or any(g.kind in special for g in gs):
+            continue
+        if part.compile_mode == 'single':
+            continue     # REPL echo semantics (C20)
+        exp_out = ''.join(g.out for g in gs)
+        got_out = o['logged_stdout'][idx] or ''
+        if got_out != exp_out:
+            why.append('part %d %r logged stdout %r, its statements wrote %r' % (idx, part.exec_lines, got_out, exp_out))
+        ev = ex.logged_evals.get(idx, constants.NOT_EVALED)
+        if ev is not constants.NOT_EVALED:
+            last = gs[-1]
+            try:
+                r = repr(ev)
+            except Exception:
+                r = 'RAISES'
+            if not last.is_expr or (last.val is not None and r != last.val):
+                why.append('part %d %r recorded the value %s, but its final statement %s' % (
+                    idx, part.exec_lines, r, ('evaluates to %s' % last.val) if last.is_expr else 'is not an expression'))
     return why
 
 
